@@ -108,7 +108,7 @@ def run(p: Program, rep: Report, tier: str) -> None:
                           and n.value.args and isinstance(n.value.args[0], ast.Constant) and n.value.args[0].value == "body" for t in n.targets if isinstance(t, ast.Name)}
             ys = [n for n in ast.walk(st.node) if isinstance(n, ast.Yield) and n.value is not None and ((isinstance(n.value, ast.Name) and n.value.id in body_names)
                   or (isinstance(n.value, ast.Call) and isinstance(n.value.func, ast.Attribute) and n.value.func.attr == "get" and n.value.args and isinstance(n.value.args[0], ast.Constant) and n.value.args[0].value == "body"))]
-            from ..common import guards_of as _guards_of
+            from ..common import norm_guards as _guards_of
             okg = False
             for y in ys:
                 gs = [(ast.unparse(g), pol) for g, pol in _guards_of(y, st.node)]
@@ -326,13 +326,13 @@ def wsgi_read_loop(st: FuncInfo):
         ck = body[0].targets[0].id
         rest = body[1:]
         # every way out of the loop must be guarded by exactly `not <chunk>`
-        from ..common import guards_of as _gof
+        from ..common import norm_guards as _gof
         exits = [n for n in ast.walk(ast.Module(body=rest, type_ignores=[])) if leaves(n)]
         if not exits:
             return ("violation", "the read loop never ends (no return/break on an empty read)", lp)
         for ex in exits:
             gs = [(ast.unparse(g), pol) for g, pol in _gof(ex, lp)]
-            if not (gs == [(f"not {ck}", True)] or gs == [(ck, False)]):
+            if gs != [(ck, False)]:
                 txt = " and ".join(("" if pol else "not ") + f"({g})" for g, pol in gs) or "unconditionally"
                 return ("violation", f"the read loop ends when {txt}: only an EMPTY read marks the end of the body (a short read does not)", ex)
         # the chunk is yielded whenever it is non-empty
@@ -340,7 +340,7 @@ def wsgi_read_loop(st: FuncInfo):
         if len(ys) != 1:
             return ("violation", f"a chunk is yielded {len(ys)} times per read", lp)
         gs = [(ast.unparse(g), pol) for g, pol in _gof(ys[0], lp)]
-        if gs in ([], [(ck, True)], [(f"not {ck}", False)]):
+        if gs in ([], [(ck, True)]):
             return ("ok", "read; leave on an empty read; yield the chunk")
         return ("violation", "a chunk is yielded only under an extra condition (chunks can be skipped)", ys[0])
     return ("unknown", "no loop calling <input>.read(<size parameter>) found")
